@@ -321,3 +321,34 @@ func HC20_terminates_electre() {
 	rt.Reach("answered")
 }
 
+
+//verif:bounds C20 HC20_methods_registered: the extracted registry lists exactly the seven documented methods, each with a listener of the same name and a non-nil parameter prototype (the input of the schema reflection that GET /api/preferenceFunctions performs; the reflection itself is outside)
+//verif:harness HC20_methods_registered mode=REAL reach=seven
+func HC20_methods_registered() {
+	rt.Assert("C20.seven-methods-registered", len(funcs.Functions) == 7 && len(biasListeners.Listeners) == 7)
+	var names []string
+	for _, f := range funcs.Functions {
+		names = append(names, f.Identifier())
+		rt.Assert("C20.method-has-parameter-prototype", f.MethodParameters() != nil)
+	}
+	for _, m := range Methods {
+		n := 0
+		for _, x := range names {
+			if x == m {
+				n++
+			}
+		}
+		rt.Assert("C20.documented-method-registered-once", n == 1)
+		found := false
+		for _, l := range biasListeners.Listeners {
+			found = found || l.Identifier() == m
+		}
+		rt.Assert("C20.method-has-a-bias-listener", found)
+	}
+	rt.Assert("C20.six-biases-registered", len(biases) == 6)
+	for _, b := range BiasNames {
+		_, ok := biases[b]
+		rt.Assert("C20.documented-bias-registered", ok)
+	}
+	rt.Reach("seven")
+}
